@@ -275,6 +275,8 @@ func cliCase(line string, rep *Report, fnd *Findings) {
 			os.MkdirAll(full, 0o755)
 		case "dangling":
 			os.Symlink(filepath.Join(dir, "does-not-exist"), full)
+		case "missing":
+			// nothing is created: the argument names a path that does not exist
 		case "linkxml":
 			// a symbolic link to a regular file kept outside the argument tree
 			target := filepath.Join(work, fmt.Sprintf("t%016x-%d.xml", h, i))
